@@ -67,6 +67,8 @@ def rule_vocabulary():
         td = os.path.join(d, "tables")
         if os.path.isdir(td):
             for fn in sorted(os.listdir(td)):
+                if fn == "params.json":
+                    continue        # the frozen parameter names list EVERY function: not a statement about what rules name
                 with open(os.path.join(td, fn)) as fh:
                     txt.append(fh.read())
         # a function is "named by a rule" when its name is used in path form (`Type::name`, `module::name`) or as the
